@@ -3,7 +3,7 @@ quick / thorough: size parameter of the slice (C10/C19: repetitions per fault cl
 C11/C16/C09: number of generated well-formed programs); *_fuzz: number of fuzz inputs."""
 
 PROPS = {
-    "C09": dict(kind="check", quick=120, thorough=2400),
+    "C09": dict(kind="check", quick=120, thorough=2400, proj="P_C01", mon="mon_C01"),  # proj/mon: run-kind corpus witnesses
     "C10": dict(kind="check", quick=3, thorough=60),
     "C11": dict(kind="check", quick=160, thorough=3200),
     "C16": dict(kind="check", quick=120, thorough=2400, quick_fuzz=1500, thorough_fuzz=30000),
